@@ -47,6 +47,21 @@ func (v *View) slack(a, b time.Duration) time.Duration {
 	return sum
 }
 
+// extend: a deadline dl for something that began at a, extended by the harness-made delays
+// (yields, held user-code calls) in the window - iterated, because the delays inside the
+// extension count as well.
+func (v *View) extend(a, dl time.Duration) time.Duration {
+	base := dl
+	for i := 0; i < 10; i++ {
+		n := base + v.slack(a, dl)
+		if n == dl {
+			break
+		}
+		dl = n
+	}
+	return dl
+}
+
 // faultIvals: per client, intervals during which a fault acted on it (faulted
 // store calls, partitions/crashes, watch closures as instants).
 func (v *View) faultIvals() map[string][]ival {
@@ -367,7 +382,7 @@ func (v *View) checkC03(res *Result) {
 		}
 		bound := is.H + 2*opTimeout(is.H)
 		dl := m.VT + bound
-		dl += v.slack(m.VT, dl)
+		dl = v.extend(m.VT, dl)
 		kind := "replaced"
 		switch m.Op {
 		case "Expired", "Expire":
@@ -473,7 +488,7 @@ func (v *View) checkC03(res *Result) {
 			if c3 < dl {
 				dl = c3
 			}
-			dl += v.slack(lastOK, dl)
+			dl = v.extend(lastOK, dl)
 			if v.End >= 0 && dl > v.End {
 				continue
 			}
@@ -546,6 +561,13 @@ func (v *View) checkC04(res *Result) {
 				res.Obs["c04.calls_with_change_inside"]++
 				break
 			}
+		}
+		if a.Result == "true" && (v.heldAt(a.Inst, a.CallVT) || v.heldAt(a.Inst, a.RetVT)) {
+			// the library is stopped inside a call into user code of this instance (possibly
+			// between raising the leadership flag and publishing the term): the oracle's view of
+			// the term boundaries is not reliable for this call
+			res.Obs["c04.true_during_hold"]++
+			continue
 		}
 		if a.Result == "true" {
 			res.Obs["c04.true"]++
@@ -757,7 +779,7 @@ func (v *View) checkC06(res *Result) {
 			}
 			for _, t0 := range t0s {
 				w := t0 + B
-				w += v.slack(t0, w)
+				w = v.extend(t0, w)
 				if w > v.End {
 					continue
 				}
@@ -931,7 +953,7 @@ func (v *View) checkC10(res *Result) {
 			continue
 		}
 		dl := st.RetVT + 3*io.H
-		dl += v.slack(st.RetVT, dl)
+		dl = v.extend(st.RetVT, dl)
 		if dl > v.End {
 			continue
 		}
@@ -994,7 +1016,7 @@ func (v *View) checkC10(res *Result) {
 			if is.H > io.H {
 				dl = t.UpVT + 3*is.H
 			}
-			dl += v.slack(t.UpVT, dl)
+			dl = v.extend(t.UpVT, dl)
 			if dl > v.End {
 				continue
 			}
@@ -1224,7 +1246,7 @@ func (v *View) checkC11(res *Result) {
 				continue
 			}
 			dl := n.rvt + G
-			dl += v.slack(n.vt, dl)
+			dl = v.extend(n.vt, dl)
 			if v.End >= 0 && dl >= v.End {
 				continue
 			}
@@ -1286,7 +1308,7 @@ func (v *View) checkC11(res *Result) {
 			}
 			from := n.vt + 100*time.Millisecond
 			to := from + 4*v.maxLeg() + 2*time.Millisecond
-			to += v.slack(n.vt, to)
+			to = v.extend(n.vt, to)
 			if v.End >= 0 && to >= v.End {
 				continue
 			}
@@ -1534,7 +1556,7 @@ func (v *View) checkC12(res *Result) {
 					continue
 				}
 				dl := t.DownVT + v.Spec.TTL + B
-				dl += v.slack(t.DownVT, dl)
+				dl = v.extend(t.DownVT, dl)
 				if dl > v.End {
 					continue
 				}
